@@ -70,7 +70,7 @@ func GenPMT(r *gen.Rand, nStreams int) PMT {
 	for i := 0; i < n; i++ {
 		pid := 16 + r.Intn(8170)
 		if r.Chance(8) {
-			pid = r.PickInt([]int{0x10, 0x1f, 0x20, 0xff, 0x100, 0x1000, 0x1ffe, 0x0fff})
+			pid = r.PickInt([]int{0x10, 0x1f, 0x20, 0xff, 0x100, 0x1000, 0x1ffe, 0x0fff, 0x1fff, 0x1fff}) // (the field is 13 bits wide: its largest value is one like any other)
 		}
 		for used[pid] {
 			pid = 16 + r.Intn(8170)
